@@ -141,6 +141,7 @@ def loose_outcome(p):
     a loop hands on, how it ends."""
     lens = summ.len_facts(p)
     parts = []
+    breaks = []
     for k, t, e in p.effects:
         if k == "store":
             parts.append("%s = %s" % (t, summ.arith_text(e, lens)))
@@ -148,10 +149,16 @@ def loose_outcome(p):
             parts.append("do " + summ.arith_text(e, lens))
         elif k == "carry":
             parts.append("next %s = %s" % (t, summ.arith_text(e, lens)))
-        elif k in ("del", "with") or (k == "jump" and t == "break"):
-            parts.append("%s %s" % (k, t))     # `continue` only ends the iteration: the same as reaching the end of the body
+        elif k == "jump" and t == "break":
+            # `continue` only ends the iteration: the same as reaching the end of the body.  A `break` is recorded, but not
+            # where between the stores of its path: `x = v; break` and `break` followed by `x = v` after the loop are the
+            # same path (nothing else of the loop runs after a break)
+            breaks.append("jump break")
+        elif k in ("del", "with"):
+            parts.append("%s %s" % (k, t))
         elif k == "final":
             parts.append("final %s = %s" % (t, summ.arith_text(e, lens) if isinstance(e, ast.AST) else e))
+    parts += breaks
     k, e = p.result if p.result else ("none", None)
     if k == "raise":
         parts.append("raise %s" % (src(e.func) if isinstance(e, ast.Call) else (src(e) if e is not None else "")))
